@@ -1,9 +1,7 @@
 #!/bin/sh
-# Build the framework from files on disk only (offline): Coq development + Go harness.
+# Build the framework from files on disk only (offline): Coq development + Go harnesses.
 set -e
 cd "$(dirname "$0")/.."
 mkdir -p .build evidence
-( cd coq && coq_makefile -f _CoqProject -o Makefile >/dev/null && timeout 3000 make -j16 2>&1 | grep -v '^COQC\|^COQDEP\|Closed under the global context\|^CLEAN' || true )
-( cd coq && timeout 3000 make -j16 >/dev/null 2>&1 ) || { echo "setup: coq build failed"; ( cd coq && make 2>&1 | tail -30 ); exit 1; }
 python3 bin/check.py --build-only || exit 1
 echo "setup: ok"
